@@ -108,6 +108,9 @@ def check_blocked_quit(run, case, tier='quick'):
                 os.remove(os.path.join(repo.scratch(), f))
         repo.drop_rules(name)
 
+def wd_fired(run):
+    return sum(n for k, n in run.inconclusive_why.items() if k.startswith('scheduler watchdog'))
+
 AGES = [None, None, 59, 3600, 86399, 86400, 172799, 172800, 200000, 10 ** 7, 10 ** 10]
 
 def check_noquit(run, case, name, sn, U, I, steps, label, age=None):
@@ -292,7 +295,15 @@ def check_case(run, case, tier='quick'):
         npts = POINTS[tier] if tier == 'thorough' else max(25, min(POINTS[tier], 500000 // max(I, 1)))
         pts = pts_all if len(pts_all) <= npts else sorted(rng.sample(pts_all, npts))
         EOF, ERR = EOFError, sched.ExplodingStr('x')
+        wd0 = wd_fired(run)
+        def stuck():
+            # a helper thread that never answers costs one 5 s watchdog per delivery: give the case up (inconclusive) instead of spending hours
+            if wd_fired(run) - wd0 >= 6:
+                run.inconc('scheduler watchdog fired 6 times in one session: case abandoned'); return True
+            return False
         for p in pts:
+            if stuck():
+                return
             act = rng.choice(['', 'h', EOF, ERR, '', 'zz'])
             hold = rng.choice([None, None, rng.randint(1, 60), rng.randint(1, 60), 'in:print_status', 'in:get_status', 'in:print_help'])
             rel = None if hold is None else p + rng.randint(1, 80)
@@ -305,12 +316,16 @@ def check_case(run, case, tier='quick'):
             ps = sorted(rng.sample(pts_all, k))
             acts = [rng.choice(['', 'h', 'x']) for _ in range(k - 1)] + [rng.choice(['', 'h', EOF, ERR])]
             steps = [sched.Step(p, a, rng.choice([None, rng.randint(1, 40)]), p + rng.randint(1, 40)) for p, a in zip(ps, acts)]
+            if stuck():
+                return
             if not check_noquit(run, case, name, sn, U, I, steps, 'request sequence', age=rng.choice(AGES)):
                 return
             run.case()
         # explicit quit at p, flag and thread exit separated (hold after the flag is set, release later)
         qpts = [p for p in pts if p <= limit_p] or pts[:1]
         for p in qpts:
+            if stuck():
+                return
             mode = rng.choice(['plain', 'after_flag', 'after_flag', 'nsteps'])
             if mode == 'plain':
                 steps = [sched.Step(p, 'q')]
@@ -353,6 +368,17 @@ def check_stdin(run, case):
                               expected={'lines': len(U.guesses)})
                 return
             run.case(h(['stdin', case['spec']['base'], mode, repr(data)]))
+            # the same condition with --limit: the first N guesses, all of them, whatever the keyboard thread is doing when the limit is reached
+            nlim = max(1, (len(U.guesses) * 3) // 5 + len(mode))
+            out, err, rc, to = cli.run_cli('pcfg_guesser.py', ['-r', name, '-s', sn + mode + 'n', '-n', str(nlim)], stdin_mode=mode, data=data)
+            run.ev('cli_runs'); run.ev('cli_limit_runs')
+            if not to:
+                want = ('\n'.join(U.guesses[:nlim]) + '\n').encode('utf-8')
+                if out != want:
+                    run.violation(f'stdin condition {mode}{data!r} with --limit {nlim}: stdout holds {out.count(10)} lines, expected the first {nlim} guesses '
+                                  f'({"a prefix of them" if want.startswith(out) else "not a prefix"})', case,
+                                  observed={'tail': out[-80:].decode('utf-8', 'replace'), 'stderr_tail': err[-300:].decode('utf-8', 'replace'), 'rc': rc})
+                    return
             for ext in ('.sav', '.omn'):
                 try:
                     os.remove(os.path.join(repo.scratch(), sn + mode + ext))
